@@ -414,7 +414,20 @@ def main(run_fn_by_pid):
         sys.exit(2)
     except SystemExit:
         raise
-    except BaseException:  # noqa  — a bug in the harness is never a verdict about the property
+    except BaseException as e:  # noqa  — a bug in the harness is never a verdict about the property
         traceback.print_exc()
+        # … but an exception raised INSIDE the tree under test while a probe drove one of its functions on state the harness prepared
+        # (bare objects, patched collaborators) means that probe no longer corresponds to the code: a broken correspondence, reported as such
+        root = os.path.realpath(os.environ.get("TLX_REPO", "/repo"))
+        tb = traceback.extract_tb(e.__traceback__)
+        if tb and os.path.realpath(tb[-1].filename).startswith(root + os.sep) and not a.replay:
+            try:
+                ctx.disagree("probe of a real function on harness-prepared state", {"frames": [f"{os.path.relpath(fr.filename, root) if os.path.realpath(fr.filename).startswith(root) else os.path.basename(fr.filename)}:{fr.lineno} {fr.name}" for fr in tb[-4:]]},
+                             f"raises {type(e).__name__}: {str(e)[:200]}", "the probe expects the function to run on the state it prepares")
+                sys.exit(ctx.finish(search=None))
+            except SystemExit:
+                raise
+            except BaseException:  # noqa
+                traceback.print_exc()
         print(f"HARNESS-ERROR {a.pid}: unexpected exception in the check itself", file=sys.stderr)
         sys.exit(2)
